@@ -247,10 +247,20 @@ def assemble(vacuity=False, only_files=None, extra_theorems=True):
     pending_from = None  # (impl header info) for FromSpecImpl generation
     n = len(lines)
 
-    def emit_fn(key, block_lines, in_trait_impl_from):
-        """block_lines: the formatted text of one fn (signature + body)"""
+    def emit_fn(key, block_lines, in_trait_impl_from, dup=False, trait_path=None, assoc_names=()):
+        """block_lines: the formatted text of one fn (signature + body).
+        dup=True (vacuity twin only): emit a renamed copy `<name>__vac` whose contract additionally ensures `false`;
+        the copy must FAIL verification.  Callers keep calling the original, so a twin never contaminates its callers."""
         text = "\n".join(block_lines)
         c = fns.get(key)
+        if dup:
+            if c is None or c.external or not c.ensures:
+                return
+            text = re.sub(r"\bfn\s+(\w+)", lambda mm: "fn " + mm.group(1) + "__vac", text, count=1)
+            if trait_path:
+                text = re.sub(r"^(\s*)fn ", r"\1pub fn ", text, count=1)
+                for an in assoc_names:
+                    text = re.sub(r"\bSelf::%s\b" % an, "<Self as %s>::%s" % (trait_path, an), text)
         # return type wrapper
         k = text.find("-> __R<")
         ret_named = False
@@ -268,7 +278,9 @@ def assemble(vacuity=False, only_files=None, extra_theorems=True):
         ob = text.rfind("{", 0, m)
         head, body_rest = text[:ob], text[m + len(marker):]
         start_line = A.lineno()
-        if c is not None:
+        if dup:
+            pass
+        elif c is not None:
             used_fn_contracts.add(key)
             if c.external:
                 A.external.append(key)
@@ -285,11 +297,12 @@ def assemble(vacuity=False, only_files=None, extra_theorems=True):
                     ln = A.lineno()
                     A.add("        " + txt.replace("\n", "\n        ") + ",")
                     for q in range(ln, A.lineno()):
-                        A.clause_at[q] = (key, lab, "requires")
-                    A.clauses[(key, lab)] = txt
-            ens = list(c.ensures)
-            if vacuity and not c.external:
-                ens.append(("__vacuity", "false"))
+                        A.clause_at[q] = (key, lab + ("__dup" if dup else ""), "requires")
+                    if not dup:
+                        A.clauses[(key, lab)] = txt
+            ens = [] if dup else list(c.ensures)
+            if dup:
+                ens = [(lab + "__dup", txt) for lab, txt in c.ensures] + [("__vacuity", "false")]
             if ens:
                 A.add("    ensures")
                 for lab, txt in ens:
@@ -330,7 +343,7 @@ def assemble(vacuity=False, only_files=None, extra_theorems=True):
             bp = ("\n        proof {\n" + lc.body_proof.rstrip("\n") + "\n        }\n") if lc.body_proof.strip() else ""
             body_rest = body_rest[:hdr_start] + hdr.rstrip() + inv + "    {" + bp + body_rest[p + len(mark):]
         A.add(body_rest.lstrip("\n").rstrip())
-        A.fn_ranges.append((start_line, A.lineno() - 1, key))
+        A.fn_ranges.append((start_line, A.lineno() - 1, key + ("__vac" if dup else "")))
 
     def collect_block(start):
         """collect a brace-balanced item starting at lines[start]; returns (block_lines, next_index)"""
@@ -386,12 +399,15 @@ def assemble(vacuity=False, only_files=None, extra_theorems=True):
                 base_depth[0] = 0
                 buf, i = collect_block(i)
                 emit_fn(key, buf, False)
+                if vacuity:
+                    emit_fn(key, buf, False, dup=True)
                 continue
             if kind == "clone":
                 base_depth[0] = 0
                 buf, i = collect_block(i)
                 t = "\n".join(buf).replace("-> __R<Self>", "-> (r: Self)").replace("__clone_contract__!();", "")
                 t = t.replace("fn clone(&self) -> (r: Self) {", "fn clone(&self) -> (r: Self)\n        ensures r == *self,\n    {")
+                t = t.replace("#[verifier::external_body]", "#[verifier::external_body] /*R12*/")
                 A.add(t)
                 # an optional `impl Copy` line follows
                 if i < n and lines[i].startswith("impl") and " Copy for " in lines[i]:
@@ -434,7 +450,7 @@ def assemble(vacuity=False, only_files=None, extra_theorems=True):
                     if hdr[-1].rstrip().endswith("{") or hdr[-1].rstrip().endswith("{}"):
                         break
                 hdr_text = "\n".join(hdr)
-                is_from = kv.get("from") == "true"
+                is_from = kv.get("from") == "true" or kv.get("trait", "").startswith("TryFrom<")
                 impl_hdr_norm = re.sub(r"\s+", "", hdr_text)
                 A.add(hdr_text)
                 if hdr_text.rstrip().endswith("{}"):
@@ -449,6 +465,10 @@ def assemble(vacuity=False, only_files=None, extra_theorems=True):
                 impl_stack.append((hdr_text, is_from))
                 # process nested items until the closing brace at column 0
                 from_fn = None
+                dups = []
+                mt = re.match(r"^impl\s*(<.*?>)?\s*(.+?) for (.+?)\s*\{$", re.sub(r"\s+", " ", hdr_text).strip())
+                trait_path = mt.group(2) if mt and " for " in re.sub(r"\s+", " ", hdr_text) else None
+                assoc_names = []
                 while i < n and lines[i] != "}":
                     s2 = lines[i].strip()
                     if s2.startswith("//@item"):
@@ -460,11 +480,26 @@ def assemble(vacuity=False, only_files=None, extra_theorems=True):
                         emit_fn(kv2["key"], buf, is_from)
                         if is_from:
                             from_fn = (kv2["key"], buf)
+                        if vacuity:
+                            if trait_path is None:
+                                emit_fn(kv2["key"], buf, is_from, dup=True)
+                            else:
+                                dups.append((kv2["key"], buf))
                     else:
+                        ma = re.match(r"^\s*type (\w+)", lines[i])
+                        if ma:
+                            assoc_names.append(ma.group(1))
                         A.add(lines[i]); i += 1
                 A.add("}")
                 i += 1
                 impl_stack.pop()
+                if dups and mt:
+                    impl_stack.append((hdr_text, False))
+                    A.add(f"impl{mt.group(1) or ''} {mt.group(3)} {{   // vacuity twins of the trait-impl methods above")
+                    for dk, dbuf in dups:
+                        emit_fn(dk, dbuf, False, dup=True, trait_path=trait_path, assoc_names=assoc_names)
+                    A.add("}")
+                    impl_stack.pop()
                 if is_from and from_fn is not None:
                     gen_from_spec(A, hdr_text, from_fn[1])
                 continue
@@ -502,12 +537,12 @@ def assemble(vacuity=False, only_files=None, extra_theorems=True):
 def gen_from_spec(A, hdr_text, fn_lines):
     """impl From<X> for Y { fn from(p: X) -> Self { EXPR } }  ==>  FromSpecImpl with from_spec(p) = EXPR"""
     hdr = re.sub(r"\s+", " ", hdr_text).strip()
-    m = re.match(r"^impl\s*(<[^{]*?>)?\s*From<(.*)> for (.*?)\s*\{$", hdr)
+    m = re.match(r"^impl\s*(<[^{]*?>)?\s*(Try)?From<(.*)> for (.*?)\s*\{$", hdr)
     if not m:
         raise Undecided("cannot parse From impl header: " + hdr)
-    gens, src_t, dst_t = m.group(1) or "", m.group(2), m.group(3)
+    gens, is_try, src_t, dst_t = m.group(1) or "", bool(m.group(2)), m.group(3), m.group(4)
     text = "\n".join(fn_lines)
-    pm = re.search(r"fn from\(\s*(\w+):", text)
+    pm = re.search(r"fn (?:try_)?from\(\s*(\w+):", text)
     if not pm:
         raise Undecided("cannot find From::from parameter: " + text)
     p = pm.group(1)
@@ -516,6 +551,12 @@ def gen_from_spec(A, hdr_text, fn_lines):
     body = body[:body.rfind("}")].strip()
     if ";" in body:
         raise Undecided("From::from body is not a single expression: " + body)
+    if is_try:
+        A.add(f"impl{gens} vstd::std_specs::convert::TryFromSpecImpl<{src_t}> for {dst_t} {{")
+        A.add("    open spec fn obeys_try_from_spec() -> bool { true }")
+        A.add(f"    open spec fn try_from_spec({p}: {src_t}) -> Result<Self, Self::Error> {{ {body} }}")
+        A.add("}")
+        return
     A.add(f"impl{gens} vstd::std_specs::convert::FromSpecImpl<{src_t}> for {dst_t} {{")
     A.add("    open spec fn obeys_from_spec() -> bool { true }")
     A.add(f"    open spec fn from_spec({p}: {src_t}) -> Self {{ {body} }}")
@@ -651,6 +692,9 @@ def scan_assumptions(A):
     found = []
     for m in pat.finditer(rest):
         ln = text[:a].count("\n") + rest[:m.start()].count("\n") + 1
+        eol = rest.find("\n", m.start())
+        if "/*R12*/" in rest[m.start():eol]:
+            continue   # generated field-wise Clone impls (rule R12), reported as an extraction assumption
         found.append((ln, m.group(1)))
     return pre, found
 
